@@ -195,7 +195,8 @@ def needs_contexts(lp_name, np_name):
     return is_linear(lp_name) or (np_name not in (None, 'none'))
 
 
-def new_mab(env, arms, lp_name, np_name=None, seed=None, tag='', n_jobs=1, scale=False, binarizer=None, hp=None):
+def new_mab(env, arms, lp_name, np_name=None, seed=None, tag='', n_jobs=1, scale=False, binarizer=None, hp=None,
+            same_list=False):
     """a bandit through the public constructor; hp lets two bandits share the same symbolic hyper-parameters"""
     if hp is None:
         lpol, h1 = make_lp(env, lp_name, tag, scale=scale, binarizer=binarizer)
@@ -204,7 +205,7 @@ def new_mab(env, arms, lp_name, np_name=None, seed=None, tag='', n_jobs=1, scale
     if seed is None:
         seed = env.integer('seed' + tag, 0, 2 ** 31 - 1)
         hp['seed'] = seed
-    mab = MAB()(list(arms), hp['lp'], hp['np'], seed=seed, n_jobs=n_jobs)
+    mab = MAB()(arms if same_list else list(arms), hp['lp'], hp['np'], seed=seed, n_jobs=n_jobs)
     return mab, hp
 
 
